@@ -487,6 +487,34 @@ func runC09P(r *simkit.Run, c Cfg) {
 		r.Release(p, nil)
 	}
 	r.Quiesce()
+	if resend && !r.Failed() && tp.Chance(1, 2, "anonDirect") {
+		// A direct announcement without a publisher ID, on a receiver that
+		// republishes: the republication has no way of naming its original
+		// publisher (an empty original-peer field means "not republished";
+		// other receivers would attribute it to this receiver). The receiver
+		// refuses the announcement, or finds another way; it does not put an
+		// unattributable republication on the topic.
+		anon := RawCid("anonymous")
+		n0 := len(fromR)
+		var derr error
+		done := false
+		r.Go("anon", func(t *simkit.Task) {
+			ctx, cancel := context.WithTimeout(context.Background(), 5*time.Second)
+			derr = rc.Direct(ctx, anon, peer.AddrInfo{Addrs: []multiaddr.Multiaddr{must(multiaddr.NewMultiaddr("/ip4/8.8.8.8/tcp/3104"))}})
+			cancel()
+			done = true
+		})
+		for i := 0; i < 8; i++ {
+			r.Advance(time.Second)
+			r.Quiesce()
+		}
+		r.Probe("direct-announcement-without-publisher-id")
+		for _, m := range fromR[n0:] {
+			if m.Cid == anon && m.OrigPeer == "" {
+				r.Violate("c09.republish", "a direct announcement without publisher ID (Direct returned %v, done=%v) was republished without an original publisher: every other receiver attributes it to this receiver", derr, done)
+			}
+		}
+	}
 	rc.Close()
 	sndS.Close()
 	tsub.Cancel()
